@@ -13,17 +13,17 @@ CHECKS = {
              text='Full product of ~35 occurrence shapes (exact with every qualifier, nested to depth 3, scoped T::X, This, look-alikes), 5 parameter spellings and 5 concrete argument kinds, each placed in 19 contexts (class-, method-, function-level parameters; ctor/method/static/property/operator/base/pair); every instantiated type spelling is compared with an independent reference substitution. Thorough adds all ordered shape pairs.',
              note='Reference substitution semantics (vf/refinst.py) trusted; known findings listed in known_findings.json are reported, not failed.', ref='2/C02'),
  'C08': dict(cat='exploration', technique='bounded-exhaustive enumeration of template headers, member-level templates and typedef placements against a reference instantiation (product order, names, C++ spelling)',
-             text='All template headers with up to 2 (3) parameters and list lengths 0..3 (0..5) on classes and functions at namespace depth 0..2, all member-level headers combined with class-level lists, all typedef placements (class/function/foreign, before/after, local/global, with/without list); instantiated tree compared with the reference Cartesian product in order, names and C++ spelling; surrounding non-template declarations must pass through unchanged and in order.',
-             note='Position of typedef instantiations inside their scope is not compared (not part of the statement).', ref='2/C08'),
+             text='All template headers with up to 2 (3) parameters and list lengths 0..3 (0..5) on classes and functions at namespace depth 0..2, all member-level headers combined with class-level lists, all typedef placements (class/function/foreign, before/after, local/global, with/without list), same-named templates in three namespaces, namespaces opened twice with the template in either block, typedefs of the three kinds in all six orders; instantiated tree compared with the reference Cartesian product in order, names and C++ spelling; surrounding non-template declarations must pass through unchanged and in order.',
+             note='Where typedef instantiations are placed inside their scope is not compared; their order relative to each other is.', ref='2/C08'),
  'C13': dict(cat='exploration', technique='exhaustive differential exploration: every ordered selection of the instantiation list, every parameter renaming, every short history of earlier modules; blocks compared with the single-instantiation run',
              text='For 5 templated declaration variants: every subset+permutation of a 3 (4) element instantiation list, 9 parameter renamings (incl. swapping T/U and single-letter names), 3 repetitions and every history of <=1 (2) earlier modules; the pybind registration, MATLAB classdef/function file and id-normalised MEX routines of each instantiation must equal those of the single-instantiation run.',
              note='Differential oracle: no expected values; MATLAB ids normalised through the dispatch table.', ref='2/C13'),
 
  'C03': dict(cat='exploration', technique='bounded-exhaustive enumeration of (module, top namespace, ignore list, serialization) with a scanner of the emitted registrations compared as a multiset against a reference API model',
-             text='12 entity kinds in each of 6 namespace scopes, alone under 8 top-namespace settings x all applicable ignore lists x serialization flag, and in all ordered pairs under 4 (8) top settings; the registrations scanned from the real generator output (classes, ctors, methods, statics, properties, operators, dunders, enums, enumerators, functions, variables, submodules) must equal the reference API exactly, with every submodule created once, after its parent and before use, and all Python keywords (keyword.kwlist) escaped.',
+             text='13 entity kinds in each of 9 namespace scopes (incl. a re-opened namespace and same-named inner namespaces), alone under 10 top-namespace settings x all applicable ignore lists x serialization flag, and in all ordered pairs under 2 (10) top settings; the registrations scanned from the real generator output (classes, ctors, methods, statics, properties, operators, dunders, enums, enumerators, functions, variables, submodules) must equal the reference API exactly, with every submodule created once, after its parent and before use, and all Python keywords (keyword.kwlist) escaped.',
              note='Reference API model (vf/refpy.py) and the C++ scanner (vf/gen.py) are trusted; compiled introspection is C04.', ref='2/C03'),
  'C09': dict(cat='exploration', technique='bounded-exhaustive enumeration of interface constructs (alone, pairs, option sets); every generated translation unit compiled (g++ -fsyntax-only, templates instantiated) against a generated mock library',
-             text='24 interface constructs (operators, defaults with quotes/brackets, nested template arguments, templates, typedefs, enums at every scope, inheritance, variables, serialization/print, keyword names, name-collision shapes) alone under 5 option sets and in every unordered (ordered) pair; each emitted TU must compile against a mock library that declares the entities as written; lexical checks (lambda parameters vs py::arg list, balanced brackets) on every output.',
+             text='28 interface constructs (same-leaf namespaces, several This:: in one template argument list, header paths that contain each other, operators, defaults with quotes/brackets, nested template arguments, templates, typedefs, enums at every scope, inheritance, variables, serialization/print, keyword names, name-collision shapes) alone under 5 option sets and in every unordered (ordered) pair; each emitted TU must compile against a mock library that declares the entities as written; lexical checks (lambda parameters vs py::arg list, balanced brackets) on every output.',
              note='Mock library generator trusted (it is compiled on its own first; a mock that does not compile is a harness error, not a verdict). No Eigen/Boost in the image.', ref='2/C09'),
 
  'C04': dict(cat='exploration', technique='bounded-exhaustive enumeration of callables (kind x argument pattern x default mask x return shape x scope); generated modules are compiled, imported and every binding executed against an instrumented mock library that records entity, this, argument values and result',
@@ -31,18 +31,18 @@ CHECKS = {
              note='Mock library generator and driver trusted; types limited to what can be implemented without Eigen/Boost.', ref='2/C04'),
 
  'C05': dict(cat='model_checking', technique='explicit-state exploration of the id allocator: every declaration sequence up to a depth bound is run through the real MatlabWrapper; invariant (ids = cases = 0..n-1, one routine per case, call-site role = routine role) checked in every state',
-             text='Breadth-first exploration of all declaration sequences of length <=3 (4) over a 16-letter alphabet (plain/virtual/derived/templated/serializable/ignored classes, overloads with defaults, statics, properties, functions, templated functions, enums, namespaces) plus length 4 (5..6) over a 6-letter core; each transition runs the real generator on the extended interface; in every reached state the ids at all .m call sites, the switch cases and the routine definitions must be in bijection and the role of each call site (read from the .m AST: class, constructor/collector/up-cast/destructor/method/static/getter/setter/function/serialization, member, arity) must equal the role of the routine its case runs (read from the C++ body).',
+             text='Breadth-first exploration of all declaration sequences of length <=3 (4) over a 21-letter alphabet (plain/virtual/derived/templated/serializable/ignored classes, overloads with defaults, statics, properties, functions, templated functions, enums, namespaces) plus length 4 (5..6) over a 6-letter core; each transition runs the real generator on the extended interface; in every reached state the ids at all .m call sites, the switch cases and the routine definitions must be in bijection and the role of each call site (read from the .m AST: class, constructor/collector/up-cast/destructor/method/static/getter/setter/function/serialization, member, arity) must equal the role of the routine its case runs (read from the C++ body).',
              note='mini-MATLAB parser and routine-body recognisers trusted; states canonicalised as (next id, role multiset).', ref='2/C05'),
  'C12': dict(cat='exploration', technique='bounded-exhaustive re-layout: every token gap of a seed corpus x a filler alphabet of whitespace and comments; parse tree projection and generator outputs compared with the canonical layout',
-             text='6 seed modules covering every grammar production x every gap between adjacent dialect tokens x 9 (15) fillers (whitespace kinds, C/C++ comments containing braces, semicolons, quotes, keywords, star runs, several comments in a row), all-gaps and alternating variants, (thorough) all gap pairs on small seeds; the parse-tree projection must be identical and the pybind output and MATLAB tree byte-identical to the canonical layout.',
+             text='6 seed modules covering every grammar production x every gap between adjacent dialect tokens x 9 (16) fillers (whitespace kinds, C/C++ comments containing braces, semicolons, quotes, keywords, star runs, several comments in a row), all-gaps and alternating variants, (thorough) all gap pairs on small seeds; the parse-tree projection must be identical and the pybind output and MATLAB tree byte-identical to the canonical layout.',
              note='Dialect terminals atomic (defaults, include header, multi-word keywords); differential oracle.', ref='2/C12'),
 
  'C07': dict(cat='fault_enumeration', technique='exhaustive single-fault enumeration on the token sequence of a seed corpus (delete, duplicate, swap, truncate, insert stray token at every position), token accounting on accepted inputs, output-directory diff and horizon on rejected ones, for the parser, both generators and both scripts',
-             text='Every single-token corruption of 6 seed modules (every deletion, duplication, adjacent swap, truncation at token boundaries and inside tokens, insertion of 12 (18) stray tokens at every gap; thorough: two-fault combinations) plus 6 validation-error inputs: an accepted input must have every token accounted for in the parse tree; a rejected one must raise within 60 s, and PybindWrapper.wrap / wrap_submodule, MatlabWrapper.wrap and both scripts (in-process and as subprocesses) must leave a pre-populated output area byte-for-byte unchanged and create nothing.',
+             text='Every single-token corruption of 7 seed modules (one of them with its default / initialiser expressions split into tokens; every deletion, duplication, adjacent swap, truncation at token boundaries and inside tokens, insertion of 12 (18) stray tokens at every gap; thorough: two-fault combinations) plus 59 validation-error inputs (which the parser or the MATLAB generator must reject); an accepted default expression must have balanced brackets; an accepted input must have every token accounted for in the parse tree; a rejected one must raise within 60 s, and PybindWrapper.wrap / wrap_submodule, MatlabWrapper.wrap and both scripts (in-process and as subprocesses) must leave a pre-populated output area byte-for-byte unchanged and create nothing.',
              note='Token accounting is by multiset (class members are stored per kind); file-writing drivers are run on every 12th (4th) fault.', ref='2/C07'),
 
  'C10': dict(cat='exploration', technique='bounded-exhaustive enumeration of (module, ignore list, serialization); generated file tree, parsed classdef structure and MEX preamble compared with a reference toolbox model',
-             text='11 entity kinds in 4 namespace scopes (depth 0..3), alone x ignore lists x serialization, in all ordered pairs (also x ignore lists) and (thorough) all triples; the generated tree must be exactly the reference toolbox: one classdef per non-ignored instantiation in its +package path, one file per function name, one enumeration classdef per enum (class-scoped under +Class), one MEX source; each classdef parsed (base/handle, pointer property, one constructor with the expected arities, delete, one method per distinct name, one static per distinct name, get/set per property), enumerators 0..n-1 in order; one collector and one clean-up block per class, one RTTI entry per virtual class.',
+             text='13 entity kinds in 4 namespace scopes (depth 0..3), alone x ignore lists x serialization, in all ordered pairs (also x ignore lists) and (thorough) all triples; the generated tree must be exactly the reference toolbox: one classdef per non-ignored instantiation in its +package path, one file per function name, one enumeration classdef per enum (class-scoped under +Class), one MEX source; each classdef parsed (base/handle, pointer property, one constructor with the expected arities, delete, one method per distinct name, one static per distinct name, get/set per property), enumerators 0..n-1 in order; one collector and one clean-up block per class, one RTTI entry per virtual class.',
              note='Reference toolbox model (vf/refml.py) and mini-MATLAB parser trusted.', ref='2/C10'),
  'C15': dict(cat='exploration', technique='exhaustive differential exploration over (module, target class): ignore vs delete vs unchanged, for both generators, block-wise comparison with id normalisation',
              text='For every module of 1..2 (3) entity kinds in 4 namespace scopes and every class of 6 target kinds at every scope (global, depth 1..3; one instantiation for templated classes): the output with the class ignored must equal byte for byte the output with its declaration deleted, and every other entity block (pybind registration; MATLAB file, id-normalised MEX routines, collector, clean-up, RTTI entry) must equal its block in the unchanged output.',
